@@ -1,3 +1,5 @@
+#[cfg(kanal_verif)]
+use crate::verif::core;
 use core::{
     cell::UnsafeCell,
     mem::{forget, size_of, zeroed, MaybeUninit},
